@@ -101,6 +101,18 @@ def generate(seed, mode):
         threads.append({'kind': 'mutator', 'ops': [{'m': o.choice(['reg', 'reg', 'unreg', 'sub', 'unsub', 'regbase', 'rbases', 'irebase', 'cdecl']),
                                                     'req': [o.randrange(3) for _ in range(o.choice([1, 1, 2]))], 'n': o.randrange(2),
                                                     'v': o.randrange(4), 'p': o.choice([0, 1, 1, 2, 2])} for _ in range(o.randint(1, 5))]})
+    if not lookup_only and h64(seed, 'extendors-pattern') % 6 == 0:
+        # fault placement: the list of interfaces that extend the requested one is long (three entries) and loses / regains its
+        # first entry while lookup threads walk it; the first entry has no registration under the looked-up key, so the
+        # answer is the same before and after every mutation -- and a reader that skips an entry returns another one
+        pre = [{'m': 'reg', 'req': [2], 'n': 0, 'v': 0, 'p': 0}, {'m': 'reg', 'req': [0], 'n': 0, 'v': 1, 'p': 1},
+               {'m': 'reg', 'req': [0], 'n': 0, 'v': 2, 'p': 2}]
+        keys[0] = {'e': o.choice([0, 1, 5, 6, 7]), 'req': [1], 'n': 0, 'p': 0}
+        for t in threads:
+            if t['kind'] == 'lookup':
+                t['ops'] = [{'key': 0} for _ in range(o.randint(4, 8))]
+            else:
+                t['ops'] = [{'m': ('unreg', 'reg')[j % 2], 'req': [2], 'n': 0, 'v': 0, 'p': 0} for j in range(o.randint(3, 7))]
     for t in threads:
         if t['kind'] == 'mutator':
             for j, m in enumerate(t['ops']):
